@@ -157,11 +157,14 @@ def rules(report, index):
             back = call('decode_vlqs', wants)
             if got != wants or back != tuple(seq):
                 bad_list.append((seq, got, wants, back))
-        if abs(i) <= 300:
-            got = call('encode_mappings', [[(i,), (0, i)]])
-            wantm = '%s,%s%s' % (want, reference_vlq(0), want)
+        if abs(i) <= 700 or abs(i) in (1024, 2 ** 20, 2 ** 31, 2 ** 40):
+            maps_ = [[(i,), (0, i, 3, i)], [(4, 0, i, 2)]]
+            got = call('encode_mappings', maps_)
+            wantm = '%s,%s;%s' % (
+                want, ''.join(reference_vlq(x) for x in (0, i, 3, i)),
+                ''.join(reference_vlq(x) for x in (4, 0, i, 2)))
             if got != wantm:
-                bad_list.append(([[(i,), (0, i)]], got, wantm, None))
+                bad_list.append((maps_, got, wantm, None))
     r2.check(not bad_list, 'list forms agree with the scalar codec',
              'encode_vlqs / decode_vlqs / encode_mappings on every value of '
              'the scalar table',
